@@ -273,6 +273,9 @@ def shards(tier):
         S.append((key, cap, "Bits2", msgs))
       else:
         S.append((key, cap, "Bits2", (1, 2, 3) if cap <= 3 or fam == "L" else (1, 2)))
+    if tier != "quick" and 4 in caps:      # capacities 5 (not a power of two: pointer wrap) and 6 with two messages
+      S.append((key, 5, "Bits2", (1, 2)))
+      S.append((key, 6, "Bits2", (1, 2)))
     if fam != "L":
       S.append((key, caps[0] if tier == "quick" else min(caps[-1], 2), "struct", (1, 2, 3)))
   # largest first for load balance
